@@ -27,3 +27,39 @@ Definition depstate_base (d : depstate) : Q := fst d.
 Definition depstate_iterations (d : depstate) : list Z := snd d.
 
 Definition is_some {A} (o : option A) : bool := match o with Some _ => true | None => false end.
+
+(* round 4 (TrTranslator / KeyTranslator / DepsTranslator):
+
+     l[-1] = v                                      set_last v l            None -> IndexError (empty list)
+     l.pop()                                        pop_last l              None -> IndexError (empty list); the value is dropped
+     l.pop(i)      (i : int >= 0)                   remove_nth i l          None -> IndexError
+     l[-1]  under the guard `l and ..`              last l 0
+     l[:-1]                                         removelast l
+     int(round(x))                                  py_int_round x          (round half to even of the exact value)
+     d.setdefault(k, set()).update(s)               dict_setdefault_update eqb k s d   (sets = lists up to order / repetition)
+     s1 == s2, s1 != s2 on sets                     set_eqb (Optional[DepState]) / qset_eqb (float tuples)  (Model.v)
+     {e for ..}, dict(d), {k: dict(v) for k, v in dd.items()}    map / flat_map; copies are identities (value semantics) *)
+Fixpoint set_last {A} (v : A) (l : list A) : option (list A) :=
+  match l with
+  | [] => None
+  | [_] => Some [v]
+  | x :: r => match set_last v r with Some r' => Some (x :: r') | None => None end
+  end.
+
+Definition pop_last {A} (l : list A) : option (list A) :=
+  match l with [] => None | _ => Some (removelast l) end.
+
+Fixpoint remove_nth {A} (i : nat) (l : list A) : option (list A) :=
+  match l, i with
+  | [], _ => None
+  | _ :: r, O => Some r
+  | x :: r, S i' => match remove_nth i' r with Some r' => Some (x :: r') | None => None end
+  end.
+
+Definition py_int_round (x : Q) : Z := round_half_even x.
+
+Definition dict_setdefault_update {K V} (eqb : K -> K -> bool) (k : K) (s : list V) (d : list (K * list V)) : list (K * list V) :=
+  match alookup eqb k d with
+  | None => d ++ [(k, s)]
+  | Some old => aset eqb k (old ++ s) d
+  end.
